@@ -251,6 +251,22 @@ def gen_jobs(rng, thorough):
     locs = [e["loc"] for e in rng.sample(tab, 60)] + [b"n%d" % rng.randrange(nbig) for _ in range(20)] + [b"N%d-x" % rng.randrange(nbig // 2) for _ in range(20)]
     jobs.append(Job("big", tab, [(b"joe", "own")], locals_=locs, trace=False))
 
+    # (5b) long keys: users/cdb is read in 32-byte pieces when a key is compared - local parts and wildcard prefixes of 29..34, 45,
+    # 63..65 and 100 bytes, look-ups that share the first 32 (64) bytes with a listed key and differ behind them, keys whose tail
+    # repeats their head
+    tab, locs = [], []
+    for j, ln in enumerate((29, 30, 31, 32, 33, 34, 45, 63, 64, 65, 100)):
+        base_ = (b"k%02d" % ln + b"abcdefghijklmnopqrstuvwxyz0123456789" * 4)[:ln]
+        tab.append(ent(0, base_, (b"lk%d" % j, 3000 + j, 3100 + j, b"/lk/%d" % j)))
+        wl = (b"w%02d" % ln + b"zyxwvutsrqponmlkjihgfedcba9876543210" * 4)[:ln - 1] + b"-"
+        tab.append(ent(1, wl, (b"lw%d" % j, 3200 + j, 3300 + j, b"/lw/%d" % j), b"-", b"p"))
+        locs += [base_, base_.upper(), base_[:-1] + b"X", base_[:32] + b"Y" * max(0, ln - 32), base_ + b"z", wl + b"ext", wl[:-1], (wl[:32] + b"q" * ln)[:ln] + b"tail"]
+    rep = b"abcdefghijklmnopqrstuvwxyz012345"            # 32 bytes
+    tab.append(ent(0, rep + rep[:8], (b"rep", 3400, 3401, b"/rep")))
+    locs += [rep + rep[:8], rep + b"ABCDEFGH", rep + b"abcdefgX"]
+    rng.shuffle(tab)
+    jobs.append(Job("longkeys", tab, [(b"joe", "own")], locals_=locs, trace=False))
+
     # (6) lines after the dot are not part of the table
     jobs.append(Job("afterdot", [ent(0, b"joe", 0)], base_db, locals_=[b"joe", b"bob", b"after", b"after-x", b"bo"],
                     after_dot=[ent(0, b"bob", (b"hijack", 4242, 4243, b"/hijack")), ent(1, b"after", (b"hijack", 4242, 4243, b"/hijack"))]))
